@@ -1,6 +1,7 @@
 package main
 
 import (
+	"encoding/json"
 	"flag"
 	"fmt"
 	"os"
@@ -30,7 +31,44 @@ func main() {
 	noEv := flag.Bool("no-evidence", false, "do not write evidence/replay files")
 	dump := flag.String("dump", "", "debug: dump undischarged obligations of a scope")
 	list := flag.Bool("list", false, "print every obligation")
+	writeAnchors := flag.String("write-anchors", "", "maintenance: run every property once and write the receiver/signature of every anchor function to this file")
 	flag.Parse()
+	if *writeAnchors != "" {
+		c, err := Load(*repo, BuildConfig{"linux", "amd64"})
+		if err != nil {
+			fmt.Fprintln(os.Stderr, err)
+			os.Exit(2)
+		}
+		for _, pd := range props {
+			func() {
+				defer func() { recover() }()
+				pd.Run(c, NewReport(pd.ID, "quick"))
+			}()
+		}
+		// functions named by reviewed entries and functions rules recognise as callees are anchors too
+		for _, tab := range [][]reviewedEntry{reviewedExpr, reviewedRender, reviewedReadahead, reviewedAgg, reviewedDissect} {
+			for _, re := range tab {
+				pk, nm := splitDisplayName(re.Where)
+				if nm != "" {
+					c.Func(pk, nm)
+				}
+			}
+		}
+		for _, a := range calleeAnchors {
+			c.Func(a[0], a[1])
+		}
+		out := map[string]string{}
+		for k, fi := range anchorsSeen {
+			out[k] = sigKey(fi.Pkg, fi.Decl)
+		}
+		b, _ := json.MarshalIndent(out, "", " ")
+		if err := os.WriteFile(*writeAnchors, append(b, '\n'), 0o644); err != nil {
+			fmt.Fprintln(os.Stderr, err)
+			os.Exit(2)
+		}
+		fmt.Printf("%d anchors written\n", len(out))
+		return
+	}
 	t0 := time.Now()
 	seed := int64(0)
 	if s := os.Getenv("VERIF_SEED"); s != "" {
@@ -40,6 +78,16 @@ func main() {
 	}
 	if *dump != "" {
 		debugDump(*repo, *dump)
+		return
+	}
+	if f := os.Getenv("RARECHECK_DUMP_INLINED"); f != "" && *prop == "" {
+		c, err := Load(*repo, BuildConfig{"linux", "amd64"})
+		if err != nil {
+			fmt.Fprintln(os.Stderr, err)
+			os.Exit(2)
+		}
+		nc, n, err := LoadNormalised(c)
+		fmt.Fprintf(os.Stderr, "normalised: %d call sites expanded, err=%v, ok=%v\n", n, err, nc != nil)
 		return
 	}
 	pd := props[*prop]
@@ -67,6 +115,7 @@ func main() {
 		if first == nil {
 			first = c
 		}
+		start := len(r.Obs)
 		func() {
 			defer func() {
 				if e := recover(); e != nil {
@@ -78,6 +127,7 @@ func main() {
 			}()
 			pd.Run(c, r)
 		}()
+		secondOpinion(pd, c, r, start, *verif)
 	}
 	r.curCfg = ""
 	if *tier == "thorough" {
@@ -91,4 +141,115 @@ func main() {
 		}
 	}
 	os.Exit(r.Finish(*verif, seed, t0, first, cfgNames, !*noEv))
+}
+
+// secondOpinion: rules that fail on the program as written are evaluated once
+// more on the normalised view (private helpers expanded in place, inline.go).
+// A rule that holds there - with at least as many instances as its floor - is
+// taken from that view; what fails in both views is reported from the
+// original. The obligations of r from index start on belong to the current
+// configuration.
+func secondOpinion(pd *propDef, c *Ctx, r *Report, start int, verif string) {
+	if os.Getenv("RARECHECK_NO_NORMALISE") != "" {
+		return
+	}
+	known := map[string]bool{}
+	if fs, err := loadFindings(verif + "/known_findings.txt"); err == nil {
+		for _, f := range fs {
+			if f.Kind == "finding" && f.Prop == r.Prop {
+				known[f.Key] = true
+			}
+		}
+	}
+	failing := map[string]bool{}
+	counts := map[string]int{}
+	for _, o := range r.Obs[start:] {
+		counts[o.Rule]++
+		if (o.Status == "violation" && !known[keyForFile(o.Key)]) || o.Status == "undecided" {
+			failing[o.Rule] = true
+		}
+	}
+	for rule, fl := range r.floors {
+		if counts[rule] < fl {
+			failing[rule] = true
+		}
+	}
+	if len(failing) == 0 {
+		return
+	}
+	nc, n, err := LoadNormalised(c)
+	if nc == nil {
+		if err != nil {
+			r.Notes = append(r.Notes, "normalised view not available: "+err.Error())
+		}
+		return
+	}
+	r2 := NewReport(r.Prop, r.Tier)
+	r2.curCfg = r.curCfg
+	func() {
+		defer func() {
+			if e := recover(); e != nil {
+				r2.Undecided("harness", "analyser", "panic", "-", fmt.Sprintf("analyser panicked on the normalised view: %v", e))
+			}
+		}()
+		pd.Run(nc, r2)
+	}()
+	cnt2, bad2 := map[string]int{}, map[string]int{}
+	for _, o := range r2.Obs {
+		cnt2[o.Rule]++
+		if (o.Status == "violation" && !known[keyForFile(o.Key)]) || o.Status == "undecided" {
+			bad2[o.Rule]++
+		}
+	}
+	for _, o := range r2.Obs {
+		if o.Rule == "harness" {
+			return // the view could not be analysed: keep the original verdict
+		}
+	}
+	var kept []Ob
+	kept = append(kept, r.Obs[:start]...)
+	replaced := map[string]bool{}
+	for rule := range failing {
+		fl := r.floors[rule]
+		if f2, ok := r2.floors[rule]; ok && f2 > fl {
+			fl = f2
+		}
+		if bad2[rule] == 0 && cnt2[rule] >= fl && cnt2[rule] > 0 {
+			replaced[rule] = true
+		}
+	}
+	if len(replaced) == 0 {
+		return
+	}
+	for _, o := range r.Obs[start:] {
+		if !replaced[o.Rule] {
+			kept = append(kept, o)
+		}
+	}
+	for _, o := range r2.Obs {
+		if replaced[o.Rule] {
+			o.By = fmt.Sprintf("normalised view (%d helper calls expanded in place): %s", n, o.By)
+			o.Pos = "~" + o.Pos
+			kept = append(kept, o)
+		}
+	}
+	r.Obs = kept
+	var names []string
+	for rule := range replaced {
+		names = append(names, rule)
+	}
+	sort.Strings(names)
+	r.Notes = append(r.Notes, fmt.Sprintf("%s: rule(s) %v did not hold on the program as written but hold once private helpers are expanded in place; verdict taken from the normalised view", r.curCfg, names))
+}
+
+// calleeAnchors: repository functions that rules recognise by name when they are called.
+var calleeAnchors = [][2]string{
+	{"rare/pkg/readahead", "dropCR"}, {"rare/pkg/extractor/batchers", "(*Batcher).incErrors"},
+	{"rare/pkg/expressions", "splitTokenizedArguments"}, {"rare/pkg/expressions/stdlib", "csvItemEncode"},
+	{"rare/pkg/expressions", "(*CompiledKeyBuilder).optimize"}, {"rare/pkg/minijson", "escape"},
+	{"rare/pkg/multiterm", "eraseRemainingLine"}, {"rare/pkg/multiterm", "hideCursor"}, {"rare/pkg/multiterm", "showCursor"},
+	{"rare/pkg/multiterm", "moveUp"}, {"rare/pkg/expressions/stdlib", "isArgCountBetween"},
+	{"rare/pkg/expressions", "stageSimpleVariable"}, {"rare/pkg/expressions", "stageLiteral"},
+	{"rare/pkg/extractor/batchers", "(*Batcher).syncReaderToBatcher"}, {"rare/pkg/extractor/batchers", "(*Batcher).syncReaderToBatcherWithTimeFlush"},
+	{"rare/pkg/multiterm/termunicode", "barWriteRunes"},
 }
